@@ -233,13 +233,21 @@ type accessFacts struct {
 }
 
 func callAccessor(family, variant, carrier string, v any) (f accessFacts) {
+	return callAccessorOn(nil, family, variant, carrier, v)
+}
+
+// callAccessorOn uses the given store (whose key "k" already holds v) instead of a fresh one
+func callAccessorOn(shared *flyt.SharedStore, family, variant, carrier string, v any) (f accessFacts) {
 	defer func() {
 		if p := recover(); p != nil {
 			f = accessFacts{panicked: true}
 		}
 	}()
 	var r flyt.Result
-	s := flyt.NewSharedStore()
+	s := shared
+	if s == nil {
+		s = flyt.NewSharedStore()
+	}
 	key := "k"
 	switch carrier {
 	case "result":
@@ -249,7 +257,9 @@ func callAccessor(family, variant, carrier string, v any) (f accessFacts) {
 			r = flyt.NewResult(v)
 		}
 	case "store":
-		s.Set(key, v)
+		if shared == nil {
+			s.Set(key, v)
+		}
 	case "absent":
 		key = "missing"
 		s.Set("other", v)
@@ -1055,6 +1065,47 @@ func init() {
 			class, v := randomValue(r)
 			id++
 			o.WriteScenario(id, "access", "gen", map[string]any{"class": class, "rep": 1000 + i}, nil, oneValue(class, 1000+i, v))
+		}
+		// sequences on ONE store and ONE key: the value is replaced through Set / Merge / Delete+Set / Clear+Set and every
+		// getter is asked again after each replacement (a getter must always answer for the value stored NOW)
+		nSeq := 40
+		if count > 1000 {
+			nSeq = 1500
+		}
+		for q := 0; q < nSeq; q++ {
+			st := flyt.NewSharedStore()
+			var evs []Event
+			steps := 3 + r.Intn(5)
+			for k := 0; k < steps; k++ {
+				class := accessClasses[r.Intn(len(accessClasses))]
+				if class == "errresult" {
+					class = "intslice"
+				}
+				reps := classReps(class)
+				rep := r.Intn(len(reps))
+				v := reps[rep]
+				switch r.Intn(4) {
+				case 0:
+					st.Set("k", v)
+				case 1:
+					st.Merge(map[string]any{"k": v, "other": k})
+				case 2:
+					st.Delete("k")
+					st.Set("k", v)
+				default:
+					st.Clear()
+					st.Merge(map[string]any{"k": v})
+				}
+				for _, f := range fams {
+					for _, variant := range []string{"plain", "or"} {
+						x := callAccessorOn(st, f, variant, "store", v)
+						evs = append(evs, Event{"ev": "access", "class": class, "rep": rep, "family": f, "variant": variant, "carrier": "store",
+							"panicked": x.panicked, "ok": x.ok, "isdefault": x.isdefault, "iszero": x.iszero, "eqref": x.eqref})
+					}
+				}
+			}
+			id++
+			o.WriteScenario(id, "access", "gen:sequence", map[string]any{"class": "sequence", "rep": q}, nil, evs)
 		}
 	}
 	families["bind"] = func(o *Out, scnFile string, seed int64, count int, modes string, opts map[string]string) {
